@@ -4,6 +4,7 @@
 //   drv_matrix --out F --mode random --n N     N random histories on a heap of matrix objects
 //   drv_matrix --out F --mode lapexh --dim D   linear assignment, every cost matrix over {0,1,2}^(n x n), n <= D
 //   drv_matrix --out F --mode laprand --n N    linear assignment, random integer / dyadic costs up to 7x7
+//   drv_matrix --out F --mode store --n N      the storage classes themselves, three classes in lock-step (see StoreRunner)
 //
 // A history works on a heap of matrix objects (id -> RowMatrix / ColMatrix /
 // LinearMatrix<double>).  Every MatrixTools call is one event; operands and
@@ -20,6 +21,7 @@
 #include <Bpp/Numeric/Matrix/Matrix.h>
 #include <Bpp/Numeric/Matrix/MatrixTools.h>
 
+#include <algorithm>
 #include <cmath>
 #include <functional>
 #include <map>
@@ -899,6 +901,359 @@ public:
   }
 };
 
+
+// ------------------------------------------------------------------------------------------------
+// --mode store : the storage classes themselves.  Histories of constructors, converting copies,
+// operator=, clone, resize (grow / shrink / grow), resize(r,c,false), operator() writes, addRow /
+// addCol, equals / operator==, destruction on RowMatrix, ColMatrix and LinearMatrix objects.  Most
+// calls are applied in lock-step to a group of three objects (one per class); after every call the
+// view of EVERY live object is logged (dimensions, all cells through operator(), every row(i) and
+// col(j)): the specification compares contents, the driver never does.
+class StoreRunner
+{
+public:
+  struct SOb
+  {
+    std::unique_ptr<BM> m;
+    char cls;
+    bool deg; // a degenerate shape (r x 0 / 0 x c) was requested: only precondition bookkeeping (no addRow / writes)
+  };
+  Rng rng;
+  std::map<int, SOb> objs;
+  std::vector<std::vector<int>> groups; // objects that received the same history
+  int nextId = 1;
+  long scenarios = 0, calls = 0;
+  int maxDim = 4;
+  std::vector<int> busy; // group in the middle of a lock-step round: its members differ until the round ends
+
+  // applies f to every member of g; the group is claimed to agree again only after the last member
+  template<class F> void round(const std::vector<int>& g, F f)
+  {
+    for (size_t k = 0; k < g.size(); ++k)
+    {
+      busy = (k + 1 < g.size()) ? g : std::vector<int>();
+      f(g[k], k);
+    }
+    busy.clear();
+  }
+
+  explicit StoreRunner(uint64_t seed) : rng(seed), objs(), groups() {}
+
+  static J viewJ(int id, const SOb& o)
+  {
+    const BM& m = *o.m;
+    size_t nr = m.getNumberOfRows(), nc = m.getNumberOfColumns();
+    Arr cells, rows, cols;
+    for (size_t i = 0; i < nr; ++i)
+    {
+      Arr row;
+      for (size_t j = 0; j < nc; ++j) row.add(enc(m(i, j), 0));
+      cells.add(row);
+      rows.add(vecJ(m.row(i), 0));
+    }
+    for (size_t j = 0; j < nc; ++j) cols.add(vecJ(m.col(j), 0));
+    return Arr().add(id).add(std::string(1, o.cls)).add(nr).add(nc).add(cells).add(rows).add(cols).j();
+  }
+  void emit(Obj& e, const std::string& res)
+  {
+    Arr w, lock;
+    for (auto& kv : objs) w.add(viewJ(kv.first, kv.second));
+    for (auto& g : groups)
+    {
+      if (g == busy) continue;
+      Arr a;
+      for (int id : g) a.add(id);
+      lock.add(a);
+    }
+    e.kv("r", res).kv("lock", lock).kv("w", w);
+    tracer().emit(e);
+    ++calls;
+  }
+  void unlock(int id)
+  {
+    for (auto& g : groups) g.erase(std::remove(g.begin(), g.end(), id), g.end());
+    groups.erase(std::remove_if(groups.begin(), groups.end(), [](const std::vector<int>& g) { return g.size() < 2; }), groups.end());
+  }
+  size_t dimv() { return rng.chance(1, 9) ? 0 : 1 + rng.below(static_cast<size_t>(maxDim)); }
+  static bool degenerate(size_t r, size_t c) { return (r == 0) != (c == 0); }
+
+  int doNew(char cls, size_t r, size_t c, bool dflt)
+  {
+    setCur("SNew");
+    int id = nextId++;
+    SOb o;
+    o.cls = cls;
+    o.deg = degenerate(r, c);
+    std::string res = outcome<bpp::Exception>([&]() {
+      if (dflt) o.m.reset(cls == 'R' ? static_cast<BM*>(new RM()) : cls == 'C' ? static_cast<BM*>(new CM()) : static_cast<BM*>(new LM()));
+      else o.m = make(cls, r, c);
+    });
+    objs[id] = std::move(o);
+    Obj e;
+    e.kv("e", "SNew").kv("o", id).kv("cls", std::string(1, cls)).kv("a", Arr().add(r).add(c)).kv("how", dflt ? "default" : "dims");
+    emit(e, res);
+    return id;
+  }
+  // how: 0 converting / copy constructor, 1 clone()
+  int doCopy(int from, char cls, int how)
+  {
+    setCur("SConvert");
+    int id = nextId++;
+    SOb o;
+    const BM& src = *objs.at(from).m;
+    o.deg = objs.at(from).deg;
+    std::string res = outcome<bpp::Exception>([&]() {
+      if (how == 1)
+      {
+        cls = objs.at(from).cls;
+        o.m.reset(dynamic_cast<BM*>(src.clone()));
+      }
+      else if (cls == objs.at(from).cls && rng.coin())
+      { // the implicit same-class copy constructor
+        if (cls == 'R') o.m.reset(new RM(static_cast<const RM&>(src)));
+        else if (cls == 'C') o.m.reset(new CM(static_cast<const CM&>(src)));
+        else o.m.reset(new LM(static_cast<const LM&>(src)));
+      }
+      else
+      {
+        if (cls == 'R') o.m.reset(new RM(src));
+        else if (cls == 'C') o.m.reset(new CM(src));
+        else o.m.reset(new LM(src));
+      }
+    });
+    o.cls = cls;
+    objs[id] = std::move(o);
+    Obj e;
+    e.kv("e", "SConvert").kv("o", from).kv("o2", id).kv("cls", std::string(1, cls)).kv("how", how == 1 ? "clone" : "ctor");
+    emit(e, res);
+    return id;
+  }
+  void doAssign(int from, int to)
+  {
+    setCur("SAssign");
+    SOb& d = objs.at(to);
+    const BM& src = *objs.at(from).m;
+    bool same = d.cls == objs.at(from).cls && rng.coin();
+    std::string res = outcome<bpp::Exception>([&]() {
+      if (d.cls == 'R')
+      {
+        if (same) static_cast<RM&>(*d.m) = static_cast<const RM&>(src);
+        else static_cast<RM&>(*d.m) = src;
+      }
+      else if (d.cls == 'C')
+      {
+        if (same) static_cast<CM&>(*d.m) = static_cast<const CM&>(src);
+        else static_cast<CM&>(*d.m) = src;
+      }
+      else
+      {
+        if (same) static_cast<LM&>(*d.m) = static_cast<const LM&>(src);
+        else static_cast<LM&>(*d.m) = src;
+      }
+    });
+    d.deg = objs.at(from).deg;
+    Obj e;
+    e.kv("e", "SConvert").kv("o", from).kv("o2", to).kv("cls", std::string(1, d.cls)).kv("how", same ? "assign-same" : "assign-base");
+    emit(e, res);
+  }
+  void doResize(int id, size_t r, size_t c, bool flat)
+  {
+    setCur("SResize");
+    SOb& o = objs.at(id);
+    std::string res = outcome<bpp::Exception>([&]() {
+      if (flat) static_cast<LM&>(*o.m).resize(r, c, false);
+      else o.m->resize(r, c);
+    });
+    o.deg = degenerate(r, c);
+    Obj e;
+    e.kv("e", "SResize").kv("o", id).kv("a", Arr().add(r).add(c)).kv("flat", flat);
+    emit(e, res);
+  }
+  void doWrite(int id, size_t i, size_t j, long v)
+  {
+    setCur("SWrite");
+    SOb& o = objs.at(id);
+    std::string res = outcome<bpp::Exception>([&]() { (*o.m)(i, j) = static_cast<S>(v); });
+    Obj e;
+    e.kv("e", "SWrite").kv("o", id).kv("a", Arr().add(i).add(j).add(v));
+    emit(e, res);
+  }
+  void doAdd(int id, const std::vector<S>& v)
+  {
+    SOb& o = objs.at(id);
+    setCur(o.cls == 'R' ? "SAddRow" : "SAddCol");
+    std::string res = outcome<bpp::Exception>([&]() {
+      if (o.cls == 'R') static_cast<RM&>(*o.m).addRow(v);
+      else static_cast<CM&>(*o.m).addCol(v);
+    });
+    Obj e;
+    e.kv("e", o.cls == 'R' ? "SAddRow" : "SAddCol").kv("o", id).kv("v", vecJ(v, 0));
+    emit(e, res);
+  }
+  void doEquals(int a, int b)
+  {
+    setCur("SEquals");
+    bool eq = false, eq2 = false;
+    std::string res = outcome<bpp::Exception>([&]() {
+      eq = objs.at(a).m->equals(*objs.at(b).m);
+      eq2 = (*objs.at(a).m == *objs.at(b).m);
+    });
+    Obj e;
+    e.kv("e", "SEquals").kv("o", a).kv("o2", b).kv("eq", eq).kv("eq2", eq2);
+    emit(e, res);
+  }
+  void doDrop(int id)
+  {
+    setCur("SDrop");
+    unlock(id);
+    objs.erase(id);
+    Obj e;
+    e.kv("e", "SDrop").kv("o", id);
+    emit(e, "ok");
+  }
+
+  std::vector<int> newGroup(size_t r, size_t c)
+  {
+    std::vector<int> g;
+    bool dflt = r == 0 && c == 0 && rng.coin();
+    for (char cl : {'R', 'C', 'L'}) g.push_back(doNew(cl, r, c, dflt));
+    groups.push_back(g);
+    return g;
+  }
+  int anyLive() const
+  {
+    size_t k = const_cast<StoreRunner*>(this)->rng.below(objs.size());
+    auto it = objs.begin();
+    std::advance(it, static_cast<long>(k));
+    return it->first;
+  }
+  void fillGroup(const std::vector<int>& g)
+  {
+    SOb& o = objs.at(g[0]);
+    if (o.deg) return;
+    size_t nr = o.m->getNumberOfRows(), nc = o.m->getNumberOfColumns();
+    for (size_t i = 0; i < nr; ++i)
+      for (size_t j = 0; j < nc; ++j)
+        if (rng.chance(2, 3))
+        {
+          long v = rng.range(-4, 4);
+          round(g, [&](int id, size_t) { doWrite(id, i, j, v); });
+        }
+  }
+
+  void history()
+  {
+    objs.clear();
+    groups.clear();
+    nextId = 1;
+    tracer().emit(Obj().kv("e", "Reset").kv("k", 0));
+    ++scenarios;
+    std::vector<int> g0 = newGroup(dimv(), dimv());
+    fillGroup(g0);
+    long len = rng.range(6, 16);
+    for (long step = 0; step < len; ++step)
+    {
+      if (objs.empty())
+      {
+        fillGroup(newGroup(dimv(), dimv()));
+        continue;
+      }
+      size_t r = rng.below(100);
+      bool haveGroup = !groups.empty();
+      std::vector<int> g = haveGroup ? groups[rng.below(groups.size())] : std::vector<int>();
+      if (r < 30 && haveGroup)
+      { // lock-step resize; grow / shrink / grow sequences come from repeating this
+        size_t nr = dimv(), nc = dimv();
+        if (rng.chance(1, 3) && !objs.at(g[0]).deg)
+        { // shrink one direction, keep the other
+          nr = objs.at(g[0]).m->getNumberOfRows();
+          nc = objs.at(g[0]).m->getNumberOfColumns();
+          if (rng.coin()) nr = nr > 1 ? nr - 1 : nr + 1;
+          else nc = nc > 1 ? nc - 1 : nc + 1;
+        }
+        round(g, [&](int id, size_t) { doResize(id, nr, nc, false); });
+      }
+      else if (r < 42 && haveGroup && !objs.at(g[0]).deg && objs.at(g[0]).m->getNumberOfRows() > 0)
+      {
+        size_t i = rng.below(objs.at(g[0]).m->getNumberOfRows()), j = rng.below(objs.at(g[0]).m->getNumberOfColumns());
+        long v = rng.range(-4, 4);
+        round(g, [&](int id, size_t) { doWrite(id, i, j, v); });
+      }
+      else if (r < 52 && haveGroup && objs.size() <= 9)
+      { // converting copies of a whole group, every member into the next class; the copies form a new group
+        std::vector<int> ng;
+        int rot = static_cast<int>(rng.below(3));
+        int how = rng.chance(1, 4) ? 1 : 0;
+        for (size_t k = 0; k < g.size(); ++k)
+        {
+          const char* order = "RCL";
+          char from = objs.at(g[k]).cls;
+          char to = order[(std::string(order).find(from) + static_cast<size_t>(rot)) % 3];
+          ng.push_back(doCopy(g[k], to, how));
+        }
+        groups.push_back(ng);
+        // copy-then-write: the originals must not move
+        if (!objs.at(ng[0]).deg && objs.at(ng[0]).m->getNumberOfRows() > 0 && rng.chance(2, 3))
+        {
+          size_t i = rng.below(objs.at(ng[0]).m->getNumberOfRows()), j = rng.below(objs.at(ng[0]).m->getNumberOfColumns());
+          long v = rng.range(5, 9);
+          round(ng, [&](int id, size_t) { doWrite(id, i, j, v); });
+        }
+      }
+      else if (r < 60 && groups.size() >= 2)
+      { // group := group, member by member (classes may differ): operator=
+        std::vector<int> src = groups[rng.below(groups.size())];
+        if (src != g && src.size() == g.size())
+        {
+          round(g, [&](int id, size_t k) { doAssign(src[(k + 1) % src.size()], id); });
+          // the two groups now hold the same content; a later write to one must not show in the other
+        }
+      }
+      else if (r < 68)
+      {
+        int a = anyLive(), b = anyLive();
+        doEquals(a, b);
+      }
+      else if (r < 80)
+      { // class-specific members leave the lock-step group
+        int id = anyLive();
+        SOb& o = objs.at(id);
+        if (o.cls == 'L')
+        {
+          unlock(id);
+          doResize(id, dimv(), dimv(), true);
+        }
+        else if (!o.deg)
+        {
+          size_t want = o.cls == 'R' ? o.m->getNumberOfColumns() : o.m->getNumberOfRows();
+          size_t have = o.cls == 'R' ? o.m->getNumberOfRows() : o.m->getNumberOfColumns();
+          size_t n = want;
+          if (have == 0 || want == 0) n = 1 + rng.below(3);
+          else if (rng.chance(1, 3)) n = rng.coin() ? want + 1 : (want > 1 ? want - 1 : want + 2);
+          std::vector<S> v(n);
+          for (auto& x : v) x = static_cast<S>(rng.range(-4, 4));
+          unlock(id);
+          doAdd(id, v);
+        }
+      }
+      else if (r < 88)
+      {
+        int id = anyLive();
+        unlock(id);
+        if (rng.coin() && !objs.at(id).deg && objs.at(id).m->getNumberOfRows() > 0)
+          doWrite(id, rng.below(objs.at(id).m->getNumberOfRows()), rng.below(objs.at(id).m->getNumberOfColumns()), rng.range(-4, 4));
+        else doResize(id, dimv(), dimv(), false);
+      }
+      else if (r < 94 && objs.size() > 1) doDrop(anyLive());
+      else if (objs.size() <= 9) fillGroup(newGroup(dimv(), dimv()));
+    }
+  }
+  void run(long n)
+  {
+    for (long s = 0; s < n; ++s) history();
+  }
+};
+
 int main(int argc, char** argv)
 {
   std::string out = argStr(argc, argv, "--out", "");
@@ -917,6 +1272,15 @@ int main(int argc, char** argv)
   Runner R(envSeed() * 1000003ULL + mode.size() * 7919ULL + static_cast<uint64_t>(argInt(argc, argv, "--salt", 0)));
   R.maxDim = static_cast<int>(argInt(argc, argv, "--maxdim", 7));
   R.kronCells = argInt(argc, argv, "--kroncells", 150);
+  if (mode == "store")
+  {
+    StoreRunner SR(envSeed() * 1000003ULL + 4241ULL);
+    SR.maxDim = static_cast<int>(argInt(argc, argv, "--maxdim", 4));
+    SR.run(n);
+    tracer().close();
+    printf("%s\n", Obj().kv("scenarios", SR.scenarios).kv("events", tracer().count()).kv("calls", SR.calls).j().dump().c_str());
+    return 0;
+  }
   if (mode == "random") R.random(n);
   else if (mode == "lapexh") R.lapExhaustive(static_cast<size_t>(argInt(argc, argv, "--dim", 3)), argInt(argc, argv, "--stride", 1));
   else if (mode == "laprand") R.lapRandom(n);
